@@ -81,6 +81,7 @@ bool muggle_trie_init(muggle_trie_t *p_trie, size_t capacity)
 		if (!muggle_memory_pool_init(p_trie->pool, capacity, sizeof(muggle_trie_node_t)))
 		{
 			free(p_trie->pool);
+			p_trie->pool = NULL;
 			return false;
 		}
 	}
